@@ -31,6 +31,9 @@ type JCfg struct {
 	SyncThreshold uint64 `json:"sync_threshold"` // journalMaybeSyncThreshold
 	MaxNovel      int    `json:"max_novel"`      // index batch size
 	MemTable      uint64 `json:"mem_table"`      // memtable bytes
+	// MmapArchives: archives opened from disk read their index through the memory-mapped reader
+	// (dbfactory's mmap_archive_indexes) instead of the in-memory one
+	MmapArchives bool `json:"mmap_archives,omitempty"`
 }
 
 type JOp struct {
@@ -196,7 +199,10 @@ func applyJCfg(c JCfg) func() {
 	os_ := nbs.DsimSetMaybeSyncThreshold(c.SyncThreshold)
 	om := nbs.DsimJournalMaxNovel
 	nbs.DsimJournalMaxNovel = c.MaxNovel
+	omm := nbs.DsimMmapArchiveIndexes
+	nbs.DsimMmapArchiveIndexes = c.MmapArchives
 	return func() {
+		nbs.DsimMmapArchiveIndexes = omm
 		nbs.DsimSetJournalWriterBuffSize(ob)
 		nbs.DsimSetMaybeSyncThreshold(os_)
 		nbs.DsimJournalMaxNovel = om
@@ -204,7 +210,7 @@ func applyJCfg(c JCfg) func() {
 }
 
 func openJournal(ctx context.Context, dir string, memTable uint64, warn *int) (*nbs.NomsBlockStore, error) {
-	st, err := nbs.NewLocalJournalingStore(ctx, constants.FormatDefaultString, dir, nbs.NewUnlimitedMemQuotaProvider(), false, func(error) {
+	st, err := nbs.NewLocalJournalingStore(ctx, constants.FormatDefaultString, dir, nbs.NewUnlimitedMemQuotaProvider(), nbs.DsimMmapArchiveIndexes, func(error) {
 		if warn != nil {
 			*warn++
 		}
